@@ -132,27 +132,28 @@ def newRegs (g : Gram) (c : Nat) : Nat → List Word → List Reg × Bool
       let r := newRegs g c (n + 1) rest
       (⟨g.take n, 1, c⟩ :: r.1, r.2)
 
+/-- the `stats.Add` call that accompanies the emission of a register in STEP 1 -/
+def Reg.addCall (cfg : Cfg) (r : Reg) : AddCall :=
+  ⟨r.gram.length - 1, (r.emit cfg).count, (r.emit cfg).marked⟩
+
+/-- `same`: how many words (from the end) the full n-gram shares with the longest valid register -/
+def sameOf (regs : List Reg) (g : Gram) : Nat :=
+  match regs.getLast? with
+  | some r => commonPrefix g r.gram
+  | none => 0
+
 /-- one iteration of `for (; full; ++full)` -/
 def adjustStep (cfg : Cfg) (s : AState) (e : Gram × Nat) : AState :=
-  let g := e.1
-  let c := e.2
-  let same := match s.regs.getLast? with
-    | some r => commonPrefix g r.gram
-    | none => 0
+  let same := sameOf s.regs e.1
   -- STEP 1 (highest order first)
   let dropped := (s.regs.drop same).reverse
-  let out1 := (dropped.map (Reg.emit cfg)).reverse ++ s.out
-  let adds1 := (dropped.map fun r =>
-      let m := Reg.emit cfg r
-      (⟨r.gram.length - 1, m.count, m.marked⟩ : AddCall)).reverse ++ s.adds
-  -- STEP 2
-  let kept := bump c (s.regs.take same)
   -- STEP 3
-  let nr := newRegs g c (same + 1) (g.drop same)
-  let m := markOf cfg c g
-  { regs := kept ++ nr.1,
-    out := out1,
-    adds := if nr.2 then ⟨g.length - 1, c, m⟩ :: adds1 else adds1 }
+  let nr := newRegs e.1 e.2 (same + 1) (e.1.drop same)
+  { -- STEP 2 on the registers that still match, then the new ones
+    regs := bump e.2 (s.regs.take same) ++ nr.1,
+    out := (dropped.map (Reg.emit cfg)).reverse ++ s.out,
+    adds := (if nr.2 then [(⟨e.1.length - 1, e.2, markOf cfg e.2 e.1⟩ : AddCall)] else []) ++
+            ((dropped.map (Reg.addCall cfg)).reverse ++ s.adds) }
 
 /-- the final flush loop (lowest order first) -/
 def adjustFlush (cfg : Cfg) (s : AState) : AState :=
@@ -274,15 +275,25 @@ inductive Err where
   | specialSymbol
 deriving Repr, DecidableEq
 
-/-- per-order discounts; `fallback = none` ⇒ `THROW_UP` -/
+/-- the discounts of one order: closed form, else the user's fallback (flag `true`), else `none` = `THROW_UP` -/
+def discountOf (fallback : Option Disc) (s : OrderStat) : Option (Disc × Bool) :=
+  match chenGoodman s with
+  | some d => some (d, false)
+  | none => fallback.map fun f => (f, true)
+
+def discountsFrom (fallback : Option Disc) : Nat → List OrderStat → Except Err (List (Disc × Bool))
+  | _, [] => .ok []
+  | i, s :: t =>
+    match discountOf fallback s with
+    | none => .error (Err.badDiscount (i + 1))
+    | some d =>
+      match discountsFrom fallback (i + 1) t with
+      | .error e => .error e
+      | .ok ds => .ok (d :: ds)
+
+/-- per-order discounts (`CalculateDiscounts`) -/
 def discounts (fallback : Option Disc) (stats : List OrderStat) : Except Err (List (Disc × Bool)) :=
-  (stats.zipIdx).mapM fun (s, i) =>
-    match chenGoodman s with
-    | some d => pure (d, false)
-    | none =>
-      match fallback with
-      | some f => pure (f, true)
-      | none => throw (Err.badDiscount (i + 1))
+  discountsFrom fallback 0 stats
 
 /-! ## 4. Initial probabilities (`initial_probabilities.cc`) -/
 
